@@ -199,3 +199,70 @@ Proof. unfold type_buckets.
   assert (forall acc, sum_nat (map snd (fold_left (fun acc v => bump_s (type_name v) acc) vals acc)) = sum_nat (map snd acc) + List.length vals) as H.
   { induction vals as [|v r IH]; intros acc; simpl; [lia|]. rewrite IH, bump_s_sum. lia. }
   rewrite H. reflexivity. Qed.
+
+(* ---------- field and type buckets are exact ---------- *)
+Fixpoint lookup_s (k : string) (acc : list (string * nat)) : nat :=
+  match acc with [] => 0%nat | (k', c) :: r => if String.eqb k k' then c else lookup_s k r end.
+
+Lemma lookup_bump_s k x acc : lookup_s k (bump_s x acc) = ((if String.eqb k x then 1 else 0) + lookup_s k acc)%nat.
+Proof.
+  induction acc as [|[k' c] r IH]; cbn [bump_s lookup_s].
+  - destruct (String.eqb k x); reflexivity.
+  - destruct (String.eqb x k') eqn:Ex; cbn [lookup_s].
+    + apply String.eqb_eq in Ex. subst k'. destruct (String.eqb k x); lia.
+    + destruct (String.eqb k k') eqn:Ek; [| exact IH].
+      apply String.eqb_eq in Ek. subst k'. rewrite String.eqb_sym, Ex. reflexivity.
+Qed.
+Lemma bump_s_keys x acc : NoDup (map fst acc) -> NoDup (map fst (bump_s x acc)) /\ forall k, In k (map fst (bump_s x acc)) <-> k = x \/ In k (map fst acc).
+Proof.
+  induction acc as [|[k' c] r IH]; intros HN; cbn [bump_s map fst].
+  - split; [constructor; [intros [] | constructor] |]. intros k. cbn [In]. split; [intros [H | []]; left; symmetry; exact H | intros [H | []]; left; symmetry; exact H].
+  - cbn [map fst] in HN. inversion HN as [|a b Hk HN']; subst. destruct (String.eqb x k') eqn:Ex; cbn [map fst].
+    + apply String.eqb_eq in Ex. subst k'. split; [constructor; assumption |]. intros k. cbn [In]. split; [intros [H | H]; [left; symmetry; exact H | right; right; exact H] | intros [H | [H | H]]; [left; symmetry; exact H | left; exact H | right; exact H]].
+    + destruct (IH HN') as [I1 I2]. split.
+      * constructor; [| exact I1]. rewrite I2. intros [H | H]; [| exact (Hk H)]. subst k'. rewrite String.eqb_refl in Ex. discriminate Ex.
+      * intros k. cbn [In]. rewrite I2. split; [intros [H | [H | H]]; auto | intros [H | [H | H]]; auto].
+Qed.
+
+Definition keys_of (v : aval) : list string := match v with Some (JMap m) => map fst m | _ => [] end.
+Definition count_str (k : string) (l : list string) : nat := List.length (filter (String.eqb k) l).
+(* how often the key k occurs among the keys of the map-valued rows *)
+Definition count_key (k : string) (vals : list aval) : nat := sum_nat (map (fun v => count_str k (keys_of v)) vals).
+
+Lemma field_fold_keys k m : forall acc,
+  lookup_s k (fold_left (fun a (kv : string * jv) => bump_s (fst kv) a) m acc) = (lookup_s k acc + count_str k (map fst m))%nat.
+Proof.
+  induction m as [|[k' v] m IH]; intros acc; cbn [fold_left map fst]; [unfold count_str; cbn; lia |].
+  rewrite IH, lookup_bump_s. unfold count_str. cbn [filter]. destruct (String.eqb k k'); cbn [List.length]; lia.
+Qed.
+Lemma field_fold_nodup m : forall acc, NoDup (map fst acc) -> NoDup (map fst (fold_left (fun a (kv : string * jv) => bump_s (fst kv) a) m acc)).
+Proof. induction m as [|kv m IH]; intros acc H; cbn [fold_left]; [exact H |]. apply IH. apply (bump_s_keys (fst kv) acc H). Qed.
+
+Theorem field_buckets_exact vals : NoDup (map fst (field_buckets vals)) /\ forall k, lookup_s k (field_buckets vals) = count_key k vals.
+Proof.
+  unfold field_buckets.
+  assert (forall acc, NoDup (map fst acc) ->
+            NoDup (map fst (fold_left (fun acc v => match v with Some (JMap m) => fold_left (fun a (kv : string * jv) => bump_s (fst kv) a) m acc | _ => acc end) vals acc)) /\
+            forall k, lookup_s k (fold_left (fun acc v => match v with Some (JMap m) => fold_left (fun a (kv : string * jv) => bump_s (fst kv) a) m acc | _ => acc end) vals acc)
+                      = (lookup_s k acc + count_key k vals)%nat) as H.
+  { induction vals as [|v r IH]; intros acc HN; cbn [fold_left].
+    - split; [exact HN |]. intros k. unfold count_key. cbn. lia.
+    - assert (forall k, count_key k (v :: r) = (count_str k (keys_of v) + count_key k r)%nat) as Hc by (intros k; reflexivity).
+      destruct v as [[| | | | |m]|]; try (destruct (IH acc HN) as [I1 I2]; split; [exact I1 |]; intros k; rewrite I2, Hc; cbn [keys_of count_str filter List.length]; lia).
+      destruct (IH _ (field_fold_nodup m acc HN)) as [I1 I2]. split; [exact I1 |]. intros k. rewrite I2, field_fold_keys, Hc. cbn [keys_of]. lia. }
+  destruct (H [] (NoDup_nil _)) as [H1 H2]. split; [exact H1 |]. intros k. rewrite H2. reflexivity.
+Qed.
+
+Definition count_type (t : string) (vals : list aval) : nat := List.length (filter (fun v => String.eqb t (type_name v)) vals).
+Theorem type_buckets_exact vals : NoDup (map fst (type_buckets vals)) /\ forall t, lookup_s t (type_buckets vals) = count_type t vals.
+Proof.
+  unfold type_buckets.
+  assert (forall acc, NoDup (map fst acc) ->
+            NoDup (map fst (fold_left (fun acc v => bump_s (type_name v) acc) vals acc)) /\
+            forall t, lookup_s t (fold_left (fun acc v => bump_s (type_name v) acc) vals acc) = (lookup_s t acc + count_type t vals)%nat) as H.
+  { induction vals as [|v r IH]; intros acc HN; cbn [fold_left].
+    - split; [exact HN |]. intros t. unfold count_type. cbn. lia.
+    - destruct (IH _ (proj1 (bump_s_keys (type_name v) acc HN))) as [I1 I2]. split; [exact I1 |]. intros t.
+      rewrite I2, lookup_bump_s. unfold count_type. cbn [filter]. destruct (String.eqb t (type_name v)); cbn [List.length]; lia. }
+  destruct (H [] (NoDup_nil _)) as [H1 H2]. split; [exact H1 |]. intros t. rewrite H2. reflexivity.
+Qed.
